@@ -35,6 +35,10 @@ DTMAX = SHARD.get("dtmax", 3)
 DTMIN = SHARD.get("dtmin", 2)
 DMAX = SHARD.get("dmax", 2 * DTMAX + 1)
 ALPHA = SHARD.get("alphabet")       # events allowed after the first one (None = all)
+ALPHAS = SHARD.get("alphas")        # per-position alphabets (a scripted history with choices), None = not scripted
+INIT_FAIL = SHARD.get("init_fail", [])   # servers that are already failing when the history starts
+PROBE = SHARD.get("probe", True)    # read back what set_many wrote (the reads themselves clear failure records: off in
+                                    # the shards that watch the bookkeeping across a recovery observed by set_many alone)
 PAIR = SHARD.get("pair", False)     # gets use (server_key, key) pairs: routed by the server key, the inner key is another server's
 
 SERVERS = [("10.0.0.%d" % (i + 1), 11211) for i in range(NS)]
@@ -99,6 +103,8 @@ class TableHasher:
 class World:
     failing = {}
     log = []
+    inrot = []      # parallel to log: was the contacted server in rotation at that moment
+    hasher = None
     routes = []     # ("ask", routing key, node chosen) for every placement query; ("contact", server) for every get
     clock = None
     where = {}
@@ -124,6 +130,7 @@ class Stub:
     def _contact(self):
         bad = bool(World.failing.get(self.name))
         World.log.append((self.name, World.clock.now, bad))
+        World.inrot.append(World.hasher is None or self.name in World.hasher.nodes)
         if bad:
             _raise()
 
@@ -169,8 +176,14 @@ def h_failover(e1: int, e2: int, e3: int, e4: int, e5: int, e6: int,
     World.clock = clk
     World.where = {}
     World.routes = []
+    World.inrot = []
+    World.hasher = None
     c = HC(SERVERS, hasher=TableHasher, retry_attempts=RA, retry_timeout=rt, dead_timeout=dt, ignore_exc=IGN)
+    World.hasher = c.hasher
     ever_failed = set()
+    for i in INIT_FAIL:
+        World.failing[NAMES[i]] = True
+        ever_failed.add(NAMES[i])
     events = [e1, e2, e3, e4, e5, e6][:DEPTH]
     delays = [d1, d2, d3, d4, d5, d6][:DEPTH]
     for pos, (e, d) in enumerate(zip(events, delays)):
@@ -179,6 +192,8 @@ def h_failover(e1: int, e2: int, e3: int, e4: int, e5: int, e6: int,
             return skip("first-event-is-a-shard-parameter")
         if pos > 0 and ALPHA is not None and e not in ALPHA:
             return skip("event-outside-the-shard-alphabet")
+        if ALPHAS is not None and e not in ALPHAS[pos]:
+            return skip("event-outside-the-shard-script")
         clk.advance(d)
         if e > NS:
             i, stop = (e - NS - 1) // 2, (e - NS - 1) % 2 == 1
@@ -208,7 +223,7 @@ def h_failover(e1: int, e2: int, e3: int, e4: int, e5: int, e6: int,
             if not _expected_exc(exc):
                 return viol("event", pos, e, "let an internal error escape:", type(exc).__name__, exc)
         contacted = [s for (s, _, _) in World.log[n0:]]
-        if e == NS and exc is None and res == [] and not any(bad for (_, _, bad) in World.log[n0:]) \
+        if PROBE and e == NS and exc is None and res == [] and not any(bad for (_, _, bad) in World.log[n0:]) \
                 and sorted(in_rotation) == sorted(c.hasher.nodes):
             # what set_many just wrote must be found by get on the same key: same instant, no failure, and the call itself
             # did not change the rotation (an eviction during the call legitimately strands what its last probe wrote)
@@ -245,9 +260,23 @@ def h_failover(e1: int, e2: int, e3: int, e4: int, e5: int, e6: int,
         # not taken out of rotation by a single failure when retries are configured
         if RA > 0 and KIND != "protocol":
             for name in NAMES:
-                nfail = sum(1 for (s, _, bad) in World.log if s == name and bad)
+                # failures since the server last answered: a successful contact ends the failing episode
+                nfail = 0
+                for (s, _, bad) in World.log:
+                    if s == name:
+                        nfail = nfail + 1 if bad else 0
                 if nfail == 1 and name not in c.hasher.nodes:
-                    return viol("server", name, "left the rotation after a single failure (retry_attempts=%d)" % RA)
+                    return viol("server", name, "left the rotation after a single failure (retry_attempts=%d)" % RA,
+                                "events", events, "delays", delays)
+                # the same at the moment of each contact: the probe that follows the first failure of an episode still
+                # finds the server in rotation (the call that evicts a server contacts it once more after removing it)
+                nfail = 0
+                for (s, _, bad), member in zip(World.log, World.inrot):
+                    if s == name:
+                        if nfail == 1 and not member:
+                            return viol("server", name, "was taken out of rotation after a single failure of this episode "
+                                        "(retry_attempts=%d)" % RA, "events", events, "delays", delays)
+                        nfail = nfail + 1 if bad else 0
     # ---- window bounds over the contact log, per failing episode
     for name in NAMES:
         ep = []
@@ -333,6 +362,15 @@ def shards(tier):
                                                                first=first, dtmax=3)))
     out.append(dict(fn="h_failover", timeout=T, shard=dict(ns=2, ra=1, ignore_exc=True, kind="timeout", depth=4, first=3,
                                                            dtmax=3, dmax=3, alphabet=[0, 2])))
+    # a failing episode that ends (observed by get or by set_many) and a second one later: fail s0, traffic, heal, traffic, fail
+    for ra in (1, 2):
+        out.append(dict(fn="h_failover", timeout=T, weight=3, shard=dict(ns=2, ra=ra, ignore_exc=False, kind="refused", depth=6,
+                                                                         dtmax=2, dmax=2, probe=False,
+                                                                         alphas=[[3], [0, 2], [4], [0, 2], [3], [0, 2]])))
+        # the same starting with server 0 already failing, so that two calls follow the second failure
+        out.append(dict(fn="h_failover", timeout=T, weight=3, shard=dict(ns=2, ra=ra, ignore_exc=False, kind="refused", depth=6,
+                                                                         dtmax=2, dmax=2, init_fail=[0], probe=False,
+                                                                         alphas=[[0, 2], [4], [0, 2], [3], [0, 2], [0, 2]])))
     # (server_key, key) pairs: routed by the server key, before, during and after the eviction of its server.  With three
     # servers the server key and the inner key fall back to different servers once the owner is out.
     for first in firsts2:
@@ -352,7 +390,7 @@ def shards(tier):
 
 BOUNDS = {
     "quick": "2 servers; histories of 3 events (5 events over reduced alphabets: failure then traffic only; failure, "
-             "eviction, healing then traffic) over {get on the key of server i, set_many over all keys, server i starts/stops "
+             "eviction, healing then traffic; 6 events `fail s0, get|set_many, heal s0, get|set_many, fail s0, get|set_many`) over {get on the key of server i, set_many over all keys, server i starts/stops "
              "failing} (symbolic; first event = shard), clock advance 0..7 (0..3 in the 5-event shards) before each event (symbolic), 1 <= retry_timeout < "
              "dead_timeout <= 3 (symbolic), recovery traffic every 1..3 time units (symbolic); retry_attempts {0,1,2} x "
              "ignore_exc on/off with ConnectionRefusedError, plus socket.timeout and a non-OSError memcached error; the same with "
